@@ -748,7 +748,7 @@ fn random_op(rng: &mut Rng, len: usize) -> Op {
     let v = 1 + rng.below(6) as V;
     let idx = if rng.chance(1, 8) { len + 1 + rng.below(2) } else { rng.below(len + 1) };
     match rng.below(14) {
-        0 => Op::Append((0..rng.below(4)).map(|_| 1 + rng.below(6) as V).collect()),
+        0 => { let n = if rng.chance(1, 6) { 4 + rng.below(40) } else { rng.below(4) }; Op::Append((0..n).map(|k| 1 + ((k as u64 + rng.below(6) as u64) % 6) as V).collect()) }
         1 => Op::Clear,
         2 | 3 => Op::PushF(v),
         4 | 5 => Op::PushB(v),
@@ -844,6 +844,29 @@ pub fn run(args: &Args, sink: &mut Sink) {
         }
     }
     sink.stat_n("exhaustive.E", ne);
+    // AP. append: every (existing length 0..6) x (payload length around small multiples and imbl's chunk size), position-
+    //     dependent items, on the vector and inside a transaction (how the payload is merged must not depend on the sizes)
+    let mut nap = 0u64;
+    for e in 0..=6usize {
+        for p in [0usize, 1, 2, 3, 4, 5, 8, 9, 13, 16, 17, 33, 64, 65, 130] {
+            for in_txn in [false, true] {
+                nap += 1;
+                sink.case(&format!("AP{nap}"));
+                let mut w = World::new(sink, 16);
+                let init: Vec<V> = (1..=e as V).collect();
+                if !init.is_empty() { w.direct(sink, &Op::Append(init.clone())); }
+                let pl = w.subscribe(sink, false);
+                let b = w.subscribe(sink, true);
+                let payload: Vec<V> = (0..p as V).map(|k| 100 + k).collect();
+                if in_txn { w.txn_begin(sink); w.txn_op(sink, &Op::Append(payload)); w.txn_op(sink, &Op::PushB(9)); w.txn_commit(sink); }
+                else { w.direct(sink, &Op::Append(payload)); w.direct(sink, &Op::PushB(9)); }
+                w.drain(sink, pl); w.drain(sink, b);
+                w.finish(sink);
+                sink.nontrivial();
+            }
+        }
+    }
+    sink.stat_n("append_size_cases", nap);
     // LT. long transactions: 17..40 recorded operations on a small vector (more diffs than elements), every way of ending
     let mut nlt = 0u64;
     {
